@@ -64,7 +64,7 @@ def impl(case):
     out = {"ismin": {}}
     if case.get("call", "min") != "ismin":
         try:
-            r = pywhy_nx.minimal_m_separator(G, x, y, **{k: set(v) for k, v in kw.items()})
+            r = pywhy_nx.minimal_m_separator(G, x, y, **{k: (frozenset(v) if lab.family == "nested" else set(v)) for k, v in kw.items()})
             if r is None:
                 out["min"] = "none"
             else:
